@@ -1312,10 +1312,10 @@ class Unicode(ConstantOpcode):
     priority = BinUnicode8.priority + 1
 
     @classmethod
-    def validate(cls, obj: str) -> bytes:
+    def validate(cls, obj: str) -> str:
         if not isinstance(obj, str):
             raise ValueError(f"{cls.__name__}.new expects a str object, not {obj!r}")
-        return obj.encode("utf-8")
+        return obj
 
     def encode_body(self) -> bytes:
         return raw_unicode_escape(self.arg)
